@@ -217,7 +217,7 @@ fn esc_str_x() {
     check_str_repr(&buf);
 }
 
-// @verif name=esc_str_a2 props=C16 tier=thorough timeout=2400 fns="UnicodeEscape::new_repr,UnicodeEscape::repr_layout,Escape::changed,Escape::write_body"
+// @verif name=esc_str_a2 props=C16 tier=off timeout=2400 fns="UnicodeEscape::new_repr,UnicodeEscape::repr_layout,Escape::changed,Escape::write_body"
 //   bound="all strings of 2 ASCII characters"
 #[kani::proof]
 #[kani::unwind(12)]
@@ -226,7 +226,7 @@ fn esc_str_a2() {
     check_str_repr(&buf);
 }
 
-// @verif name=esc_str_a3 props=C16 tier=thorough timeout=2400 fns="UnicodeEscape::new_repr,UnicodeEscape::repr_layout,Escape::changed,Escape::write_body"
+// @verif name=esc_str_a3 props=C16 tier=off timeout=2400 fns="UnicodeEscape::new_repr,UnicodeEscape::repr_layout,Escape::changed,Escape::write_body"
 //   bound="all strings of 3 ASCII characters"
 #[kani::proof]
 #[kani::unwind(12)]
